@@ -187,7 +187,24 @@ pub fn trigger(name: &str, args: &Value, cfg: &Cfg, history: &[Op], finding: &Va
             x["family"] == "sinc"
                 && x["cc"] == true
                 && x["ratio"].as_f64().unwrap_or(0.0) > 1.0
-                && ((w == "Hann" && frac >= 0.9) || ((w == "Hann2" || w == "Blackman") && len == 64 && frac >= 0.999))
+                && ((w == "Hann" && frac >= 0.9) || ((w == "Hann2" || w == "Blackman") && len < 128 && frac >= 0.999))
+        }
+        // C01: downsampling so far that the whole passband (f_cutoff * ratio, in units of the
+        // input Nyquist frequency) is barely wider than the main lobe of the window's transform
+        // (half-width 1 - calculate_cutoff): the far-side sidelobes of the window no longer
+        // contribute and a tone at the very edge of the passband loses slightly more than the
+        // 1 % allowed for Hann
+        "passband_narrower_than_window_lobe" => {
+            let x = &finding["x"];
+            let len = x["sinc_len"].as_u64().unwrap_or(0) as usize;
+            let ratio = x["ratio"].as_f64().unwrap_or(1.0);
+            let frac = x["tone_frac"].as_f64().unwrap_or(0.0);
+            if !(x["family"] == "sinc" && x["window"] == "Hann" && len >= 8 && ratio < 1.0 && frac >= 0.999) {
+                return false;
+            }
+            let ccv = rubato::calculate_cutoff::<f32>(len, rubato::WindowFunction::Hann) as f64;
+            let fc = if x["cc"] == true { ccv } else { 0.8 };
+            fc * ratio < argf(args, "lobes", 1.5) * (1.0 - ccv)
         }
         // the last processing call runs a ramp
         "ramp_in_last_call" => cs.last().map(|c| c.r_cur != c.r_tgt).unwrap_or(false),
